@@ -60,7 +60,9 @@ type Scenario struct {
 	Pre    []PreObj `json:"pre,omitempty"`
 	Steps  []Step   `json:"steps"`
 	// Sched, when present, runs all op steps concurrently under this schedule (C09).
-	Sched []int `json:"sched,omitempty"`
+	Sched []Token `json:"sched,omitempty"`
+	// Setup steps are run sequentially before the trace starts (to reach a populated history).
+	Setup []Step `json:"setup,omitempty"`
 }
 
 // ---- environment --------------------------------------------------------------------
@@ -71,6 +73,8 @@ type Env struct {
 	Lib    ChartLib
 	Driver string
 	mem    *driver.Memory
+	// endGate, when set, is waited on before an operation's return is logged (schedule replay)
+	endGate func(proc int)
 }
 
 func flagB(f map[string]any, k string) bool {
@@ -385,6 +389,9 @@ func (e *Env) RunOp(proc, i int, s Step) (res OpResult) {
 		if !faulted {
 			fdesc = ""
 		}
+		if e.endGate != nil {
+			e.endGate(proc)
+		}
 		e.Rec.Log(Event{Proc: proc, Step: i, Ev: "end", Op: s.Op, OK: res.Err == "", Err: res.Err, Info: res.Info, FaultHit: fdesc, Calls: calls})
 	}()
 	f := s.Flags
@@ -478,13 +485,25 @@ func Run(lib ChartLib, sc Scenario) []Event {
 	for _, p := range sc.Pre {
 		e.putPre(p)
 	}
+	for i, s := range sc.Setup {
+		e.RunOp(9, i, s)
+	}
+	e.Rec.ResetLog()
 	e.Rec.Log(Event{Ev: "reset", Scenario: sc.ID, Driver: sc.Driver, OK: true})
 	for i, s := range sc.Steps {
 		if s.Op == "" {
 			e.applyEnvStep(i, s)
 			continue
 		}
-		e.RunOp(1, i, s)
+		if len(sc.Sched) > 0 {
+			e.RunConcurrent(sc, i)
+			break
+		}
+		p := s.Proc
+		if p == 0 {
+			p = 1
+		}
+		e.RunOp(p, i, s)
 	}
 	return e.Rec.Events()
 }
